@@ -317,11 +317,46 @@ class ArrV:
         return sets, scalar
 
 
+def _paired_fancy(base, items, ev, n, mod):
+    """two or more integer-list indices select element-wise pairs (numpy broadcasts the index arrays together), e.g.
+    a[..., [0,1,2], [0,1,2]] is the diagonal.  Returns the list of constant-axis keys, or None when at most one index is a list.
+    Only the case 'every constant axis is indexed by a list of one common length (or a scalar)' is modelled."""
+    fancy = [i for i in items if isinstance(i, Tup) and all(is_sym(x) and x.is_Integer for x in i.items)]
+    if len(fancy) < 2:
+        return None
+    its = list(items)
+    if any(i is Ellipsis for i in its):
+        k_ = its.index(Ellipsis)
+        its = its[:k_] + [SliceV(None, None, None)] * (base.batch + len(base.shape) - len(its) + 1) + its[k_ + 1:]
+    if len(its) != base.batch + len(base.shape):
+        raise ev.err("index rank does not match the array", n, mod)
+    const_items = its[: len(base.shape)] if base.batch_last else its[base.batch:]
+    ln = {len(i.items) for i in fancy}
+    if len(ln) != 1:
+        raise RaisedV("IndexError")
+    ln = ln.pop()
+    cols = []
+    for size, i in zip(base.shape, const_items):
+        if isinstance(i, Tup):
+            ks = [int(x) + (size if int(x) < 0 else 0) for x in i.items]
+        elif is_sym(i) and i.is_Integer:
+            ks = [int(i) + (size if int(i) < 0 else 0)] * ln
+        else:
+            raise ev.err("integer-array indices mixed with slices on the constant axes", n, mod)
+        if not all(0 <= kk < size for kk in ks):
+            raise RaisedV("IndexError")
+        cols.append(ks)
+    return [tuple(c[t_] for c in cols) for t_ in range(ln)]
+
+
 def _as_index(i):
     """an integer array used as an index is an integer list"""
     if isinstance(i, ArrV) and len(i.shape) == 1 and not i.batch:
         return Tup([sp.sympify(i.get((k,))) for k in range(i.shape[0])], "list")
     return i
+
+
+MAYBE_ZERO_ATOMS = {"T"}
 
 
 class MatchV:
@@ -919,6 +954,20 @@ class Ev:
 
         if isinstance(op, (ast.Eq, ast.NotEq)) and ((a is None) != (b is None)):
             return isinstance(op, ast.NotEq)
+        if is_sym(a) and is_sym(b) and not (a.is_number and b.is_number) and isinstance(op, (ast.Eq, ast.NotEq, ast.Lt, ast.LtE, ast.Gt, ast.GtE)):
+            # the sign of the difference is known from the declared signs of the atoms (weights, volumes, counts are positive)
+            d = a - b
+            verdict = None
+            if any(str(x) in MAYBE_ZERO_ATOMS for x in d.free_symbols):
+                pass            # e.g. the temperature: declared positive for the algebra, but T = 0 is in its domain
+            elif d.is_positive:
+                verdict = {ast.Eq: False, ast.NotEq: True, ast.Lt: False, ast.LtE: False, ast.Gt: True, ast.GtE: True}[type(op)]
+            elif d.is_negative:
+                verdict = {ast.Eq: False, ast.NotEq: True, ast.Lt: True, ast.LtE: True, ast.Gt: False, ast.GtE: False}[type(op)]
+            elif d.is_zero:
+                verdict = {ast.Eq: True, ast.NotEq: False, ast.Lt: False, ast.LtE: True, ast.Gt: False, ast.GtE: True}[type(op)]
+            if verdict is not None:
+                return verdict
         if isinstance(op, (ast.Eq, ast.NotEq)) and isinstance(a, Obj) and not a.cls.startswith("ext:") and not hasattr(a, "const_key"):
             owner, eqf, kind = self.model.find_member(a.cls, "__eq__")
             if eqf is not None:
@@ -1028,6 +1077,11 @@ class Ev:
         if isinstance(base, ArrV):
             items = idx.items if isinstance(idx, Tup) and idx.kind != "list" else [idx]
             items = [_as_index(i) for i in items]
+            paired = _paired_fancy(base, items, self, n, mod)
+            if paired is not None:
+                out = ArrV(base.batch, (len(paired),), base.fill, batch_last=base.batch_last)
+                out.cells = {(tpos,): base.get(key) for tpos, key in enumerate(paired)}
+                return out
             sets, scalar = base.index_sets(items, self, n, mod)
             if all(scalar):
                 return base.get([x[0] for x in sets])
@@ -1450,7 +1504,23 @@ class Ev:
                     if bname.startswith("ext:") and f"{bname[4:]}.__setitem__" in LIB:
                         return LIB[f"{bname[4:]}.__setitem__"](self, [base, idx, v], {}, t, mod)
         if isinstance(base, ArrV):
-            items = idx.items if isinstance(idx, Tup) else [idx]
+            items = idx.items if isinstance(idx, Tup) and idx.kind != "list" else [idx]
+            items = [_as_index(i) for i in items]
+            paired = _paired_fancy(base, items, self, t, mod)
+            if paired is not None:
+                keys = paired
+                if isinstance(v, ArrV):
+                    if tuple(v.shape) != (len(keys),):
+                        raise self.err("shape mismatch in a paired integer-array store", t, mod)
+                    for tpos, key in enumerate(keys):
+                        base.cells[key] = v.get((tpos,))
+                elif isinstance(v, Tup) and len(v.items) == len(keys):
+                    for key, val in zip(keys, v.items):
+                        base.cells[key] = as_sym(val)
+                else:
+                    for key in keys:
+                        base.cells[key] = as_sym(v)
+                return
             sets, scalar = base.index_sets(items, self, t, mod)
             if isinstance(v, ArrV):
                 dims = [len(x) for x, sc in zip(sets, scalar) if not sc]
@@ -1892,7 +1962,14 @@ def lib_prod(ev, a, k, n, mod):
 
 
 def lib_array(ev, a, k, n, mod):
-    return a[0]
+    """numpy.array(x): a new array (copy=True is the default) - a small array is copied, a list of numbers becomes one"""
+    x = a[0]
+    if not _float_dtype(k.get("dtype")):
+        raise ev.err(f"numpy.array with dtype {k.get('dtype')!r} is not modelled", n, mod)
+    if isinstance(x, ArrV) and k.get("copy", True) is not False:
+        out = ArrV(x.batch, x.shape, x.fill, dict(x.cells), batch_last=x.batch_last)
+        return out
+    return x
 
 
 def lib_len(ev, a, k, n, mod):
@@ -2952,10 +3029,33 @@ def _elementwise(fn):
     return f
 
 
+def _float_dtype(v):
+    name = v if isinstance(v, str) else getattr(v, "name", "")
+    return v is None or (name or "").replace("builtins.", "").replace("numpy.", "") in ("float", "float64", "double", "float_", "f8", "longdouble")
+
+
 def _binary(op):
     def f(ev, a, k, n, mod):
+        if not _float_dtype(k.get("dtype")):
+            raise ev.err(f"dtype {k.get('dtype')!r} is not modelled", n, mod)
         return ev.binop(op, a[0], a[1], n, mod)
+    f.kw = {"dtype"}
     return f
+
+
+def lib_map(ev, a, k, n, mod):
+    fn = a[0]
+    seqs = [ev.iterate(x, n, mod) for x in a[1:]]
+    return Tup([ev.call(fn, list(args), {}, n, mod) for args in zip(*seqs)], "list")
+
+
+def lib_result_type(ev, a, k, n, mod):
+    if all(_float_dtype(x) or (is_sym(x)) for x in a):
+        return LibV("numpy.float64")
+    raise ev.err("numpy.result_type of non-floating types", n, mod)
+
+
+LIB.update({"map": lib_map, "numpy.result_type": lib_result_type, "numpy.promote_types": lib_result_type})
 
 
 def lib_bool(ev, a, k, n, mod):
@@ -3057,6 +3157,19 @@ lib_searchsorted.kw = {"side"}
 
 _ID = lambda ev, a, k, n, mod: a[0]
 _ID.kw = None
+
+
+def lib_asarray(ev, a, k, n, mod):
+    """numpy.asarray: no copy of an array; a plain list of numbers becomes a one-dimensional array"""
+    x = a[0]
+    if not _float_dtype(k.get("dtype")):
+        raise ev.err(f"asarray with dtype {k.get('dtype')!r} is not modelled", n, mod)
+    if isinstance(x, Tup) and x.kind in ("list", "tuple") and x.items and all(is_sym(i) for i in x.items):
+        return _as_arr(ev, x, n, mod)
+    return x
+
+
+lib_asarray.kw = {"dtype", "order"}
 LIB.update({
     "bool": lib_bool, "itertools.combinations_with_replacement": lib_combinations(True), "itertools.combinations": lib_combinations(False),
     "ndarray.tobytes": lib_tobytes,
@@ -3064,7 +3177,8 @@ LIB.update({
     "numpy.add": _binary(ast.Add()), "numpy.subtract": _binary(ast.Sub()), "numpy.power": _binary(ast.Pow()),
     "numpy.negative": _elementwise(lambda x: -x), "numpy.square": _elementwise(lambda x: x ** 2),
     "numpy.reciprocal": _elementwise(lambda x: 1 / x), "numpy.conj": _elementwise(sp.conjugate), "numpy.conjugate": _elementwise(sp.conjugate),
-    "numpy.asarray": _ID, "numpy.ascontiguousarray": _ID, "numpy.asfarray": _ID, "numpy.float64": _ID, "numpy.atleast_1d": _ID,
+    "numpy.asarray": lib_asarray, "numpy.ascontiguousarray": lib_asarray, "numpy.asfarray": lib_asarray, "numpy.float64": _ID, "numpy.atleast_1d": lib_asarray,
+    "numpy.asanyarray": lib_asarray,
     "numpy.mean": lib_np_average(lib_opaque_reduce("MEAN"), False), "numpy.average": lib_np_average(None, True), "slice": lib_slice, "numpy.amin": lib_opaque_reduce("MIN"), "numpy.amax": lib_opaque_reduce("MAX"),
     "numpy.min": lib_opaque_reduce("MIN"), "numpy.max": lib_opaque_reduce("MAX"),
     "numpy.isclose": lib_isclose_sym, "numpy.where": lib_where3, "numpy.inner": lib_inner, "numpy.dot": lib_dot, "numpy.matmul": lib_dot,
@@ -3156,6 +3270,8 @@ def _as_arr(ev, v, n, mod):
 def lib_transpose(ev, a, k, n, mod):
     x = a[0]
     axes = a[1] if len(a) > 1 else k.get("axes")
+    if len(a) > 2:                       # x.transpose(1, 2, 0)
+        axes = Tup(list(a[1:]), "tuple")
     if isinstance(x, Tup):
         x = _as_arr(ev, x, n, mod)
     if not isinstance(x, ArrV):
@@ -3314,6 +3430,8 @@ def _arr_reduce(fn, symbolic=None):
         x = a[0]
         axis = k.get("axis", a[1] if len(a) > 1 else None)
         keep = k.get("keepdims", False)
+        if not _float_dtype(k.get("dtype")):
+            raise ev.err(f"reduction with dtype {k.get('dtype')!r} is not modelled", n, mod)
         if axis is not None:
             if symbolic is None and not all(sp.sympify(x.get(key)).is_number for key in itertools.product(*[range(d) for d in x.shape])):
                 raise ev.err("axis-wise reduction of a non-constant small array", n, mod)
@@ -3335,7 +3453,7 @@ def _arr_reduce(fn, symbolic=None):
         if symbolic is not None and not x.batch:
             return symbolic(vals)
         raise ev.err("reduction of a non-constant small array", n, mod)
-    f.kw = {"axis", "keepdims"}
+    f.kw = {"axis", "keepdims", "dtype"}
     return f
 
 
